@@ -10,7 +10,9 @@ PROOF = S.pool_proof('C02', ['C02_loud_before_any_broken_future', 'C02_broken_po
 
 
 def run(ctx):
-    return S.sim_check(ctx, FAMILIES, FAMILIES, PER_FAMILY, S.SIM_ASSUME, proof=PROOF)
+    from checks import realkill
+    extra = realkill.deaths(ctx)
+    return S.sim_check(ctx, FAMILIES, FAMILIES, PER_FAMILY, S.SIM_ASSUME, proof=PROOF, extra_cov=extra)
 
 
 def replay(ctx, path):
